@@ -15,7 +15,8 @@ EXPLANATION = (
     "R0 (shared with C01.R2/R3): every reaction adds the identical k*prod(y) monomial once per product occurrence and subtracts "
     "it once per reactant occurrence, unconditionally -- so sum_i w_i*ydot_i = sum_react k*prod(y)*(sum_products w - sum_reactants w), "
     "which vanishes for any weight w (element count, charge) a balanced reaction preserves; no species is dropped from a reactant / product "
-    "list for being falsy (Species defines no __bool__/__len__). R1 GetElementAbund sums "
+    "list for being falsy (Species defines no __bool__/__len__), by the gate Component._create_species (None only for empty names and exact "
+    "members of the known pseudo-elements) or by code editing a reaction's lists in place after construction (C01.R6 / C01.R12). R1 GetElementAbund sums "
     "count(spec, element)*y[IDX_spec] over the same unfiltered network.species, guarded by the IDX_ELEM_ macro of the loop's own "
     "element, exactly as the macro header defines it. R2 every way two species can be identified (each disjunct of Species.__eq__) "
     "forces equal composition and charge: same name, or ice with equal basename+charge+group, or grains (no elements) with equal "
